@@ -289,7 +289,7 @@ func c04Phase(class, detail string, n int, f func()) bool {
 		before = c04MemProfile()
 	}
 	a0 := c04Allocs()
-	t0 := time.Now()
+	t0 := cpuNow()
 	var stack string
 	var pval interface{}
 	func() {
@@ -301,7 +301,7 @@ func c04Phase(class, detail string, n int, f func()) bool {
 		}()
 		f()
 	}()
-	el := time.Since(t0)
+	el := cpuNow() - t0
 	alloc := c04Allocs() - a0
 	c04w.mu.Lock()
 	c04w.active = false
